@@ -40,6 +40,10 @@ def gen_positions(rng, n, model, lo=0.0, hi=1000.0):
         centres = [rng.uniform(lo, hi) for _ in range(k)]
         tight = rng.choice([0.0, 0.5, 3.0, 20.0])
         return [rng.choice(centres) + rng.uniform(-tight, tight) for _ in range(n)]
+    if model == "far":
+        # far from the origin, either sign: positions of the order 1e4..1e7 (float resolution of the solver's tolerances)
+        base = rng.choice([1, -1]) * 10 ** rng.uniform(4, 7)
+        return [base + rng.uniform(lo, hi) for _ in range(n)]
     if model == "ties":
         vals = [float(rng.randrange(int(lo), int(hi) + 1)) for _ in range(max(1, n // rng.choice([2, 3, 5])))]
         return [rng.choice(vals) for _ in range(n)]
@@ -57,7 +61,7 @@ def gen_case(rng, max_n=200, heavy_ok=False):
         return _near_touching(rng, min(n, 60), opts)
     if r < 0.34:
         return _packing(rng, min(n, 60), opts)
-    model = rng.choice(["integers", "half", "uniform", "clusters", "ties", "clusters"])
+    model = rng.choice(["integers", "half", "uniform", "clusters", "ties", "clusters", "far"])
     wmode = rng.choice(["fixed", "table", "uniform", "ints"])
     fixedw = rng.choice(WIDTHS + [20, 30])
     if model in ("clusters", "ties") and n > 60 and wmode != "fixed":
@@ -65,11 +69,22 @@ def gen_case(rng, max_n=200, heavy_ok=False):
     pos = gen_positions(rng, n, model)
     labels = [{"pos": p, "w": (fixedw if wmode == "fixed" else rand_width(rng, wmode))} for p in pos]
     b = rng.random()
-    if b < 0.25:
+    if model == "far" and b < 0.25:
+        # keep the lower bound in the labels' neighbourhood (or absent): labels millions of units outside a bound make
+        # the 1e10-weight soft walls yield by sum(pull)/1e10 > 1e-3, outside the tolerance the oracles grant
+        opts["minPos"] = rng.choice([None, min(pos) - rng.choice([0, 50, 500])])
+        tag = "lower-only" if opts["minPos"] is not None else "unbounded-nomin"
+    elif b < 0.25:
         tag = "unbounded"
         if rng.random() < 0.5:
             opts["minPos"] = rng.choice([None, -50, 30, 0.5])
             tag = "lower-only" if opts["minPos"] is not None else "unbounded-nomin"
+    elif model == "far":
+        # bounds around the labels' own neighbourhood
+        centre = sum(pos) / len(pos)
+        opts["minPos"] = centre - rng.choice([300, 600, 2000])
+        opts["maxPos"] = centre + rng.choice([300, 600, 2000])
+        tag = "bounded"
     else:
         opts["maxPos"] = rng.choice([200, 500, 1000, 1000, 1500])
         if rng.random() < 0.4:
@@ -86,7 +101,7 @@ def gen_case(rng, max_n=200, heavy_ok=False):
             n = 60
     if rng.random() < 0.08 and n >= 3 and "maxPos" in opts:
         # a label wider than the whole layer
-        labels[rng.randrange(n)]["w"] = float(opts["maxPos"]) + 50
+        labels[rng.randrange(n)]["w"] = float(opts["maxPos"]) - float(opts.get("minPos", 0) or 0) + 50
         tag += "+wide-label"
     return labels, opts, "%s/%s/%s" % (model, tag, opts["algorithm"])
 
